@@ -17,7 +17,7 @@ import elementpath.aliases as ta
 from elementpath.exceptions import ElementPathValueError
 from elementpath.datatypes import AnyAtomicType
 from elementpath.sequences import xlist
-from elementpath.helpers import split_function_test
+from elementpath.helpers import SPACES_OR_COMMENTS, split_function_test
 from elementpath.sequence_types import match_sequence_type
 from elementpath.xpath_context import XPathSchemaContext
 from .functions import XPathFunction
@@ -80,7 +80,7 @@ class XPathMap(XPathFunction):
     """
     symbol = 'map'
     label = 'map'
-    pattern = r'(?<!\$)\bmap(?=\s*(?:\(\:.*\:\))?\s*\{(?!\:))'
+    pattern = r'(?<!\$)\bmap(?=' + SPACES_OR_COMMENTS + r'\{(?!\:))'
     _map: Optional[ta.MapDictType] = None
     _values: list[ta.XPathTokenType]  # a 2nd list of tokens is needed for map's values
     _nan_key: Union[bool, float] = False
